@@ -24,6 +24,8 @@ VARS = [
  ("rootClosedAtCall", "thread -> the root's Close had already returned when the thread asked for a scope"),
  ("reacquiredClosed", "the API handed out a scope object whose Close had returned before the request began"),
  ("notInert", "a scope requested after the root's Close had returned was not the inert scope"),
+ ("parentClosedAtCall", "thread -> the Close of the scope object it derives from had already returned when it asked"),
+ ("liveFromClosed", "a scope derived from a scope object whose Close had returned was not inert"),
  ("gotObj", "<<kind, identity, scope object>> -> the metric object returned by first use"),
  ("objMismatch", "two requests for the same metric of the same scope object returned different objects"),
  ("allocs", "<<kind, identity, scope object>> -> number of Allocate calls on the cached reporter"),
@@ -48,7 +50,7 @@ INIT = {
  "Mod": "m", "crashed": '""', "nonneg": "TRUE", "incs": "<<>>", "promised": "<<>>", "deliv": "<<>>", "negDelivery": "FALSE",
  "quiesced": "FALSE", "lateDelivery": "FALSE", "updc": "<<>>", "upd": "<<>>", "gdl": "<<>>", "passes": "<<>>",
  "staleAfterPass": "FALSE", "objClosed": "{}", "objCloseDone": "{}", "closedAtCall": "<<>>", "rootClosedAtCall": "<<>>", "reacquiredClosed": "FALSE",
- "notInert": "FALSE", "gotObj": "<<>>", "objMismatch": "FALSE", "allocs": "<<>>", "rootCloseCalled": "{}",
+ "notInert": "FALSE", "parentClosedAtCall": "<<>>", "liveFromClosed": "FALSE", "gotObj": "<<>>", "objMismatch": "FALSE", "allocs": "<<>>", "rootCloseCalled": "{}",
  "rootCloseReturned": "{}", "closePromise": "<<>>", "barrierBroken": "FALSE", "unflushed": "FALSE", "callsAfterClose": "0",
  "reporterCloses": "0", "closeBeforeFlush": "FALSE", "loopNotEnded": "FALSE", "errMismatch": "FALSE", "boundsBad": "FALSE",
  "timerLog": "<<>>", "timerOpen": "<<>>", "timerBad": "FALSE",
@@ -86,11 +88,13 @@ ACTIONS = [
   [("reporterCloses", "reporterCloses + 1"), ("closeBeforeFlush", "(closeBeforeFlush \\/ unflushed)"), RC1], []),
  ("ObsCloseCall", "o", "Close of subscope object o has been called", [("objClosed", "objClosed \\cup {o}")], []),
  ("ObsCloseReturn", "o", "Close of subscope object o has returned", [("objCloseDone", "objCloseDone \\cup {o}")], []),
- ("ObsSubCall", "t", "thread t asks for a (sub)scope",
-  [("closedAtCall", "Put(closedAtCall, t, objCloseDone)"), ("rootClosedAtCall", "Put(rootClosedAtCall, t, rootCloseReturned # {})")], []),
+ ("ObsSubCall", "t, po", "thread t asks scope object po for a (sub)scope",
+  [("closedAtCall", "Put(closedAtCall, t, objCloseDone)"), ("rootClosedAtCall", "Put(rootClosedAtCall, t, rootCloseReturned # {})"),
+   ("parentClosedAtCall", "Put(parentClosedAtCall, t, po \\in objCloseDone)")], []),
  ("ObsSubReturn", "t, o, inert", "the API returned scope object o to thread t",
   [("reacquiredClosed", "(reacquiredClosed \\/ (~inert /\\ t \\in DOMAIN closedAtCall /\\ o \\in closedAtCall[t]))"),
-   ("notInert", "(notInert \\/ (~inert /\\ t \\in DOMAIN rootClosedAtCall /\\ rootClosedAtCall[t]))")], []),
+   ("notInert", "(notInert \\/ (~inert /\\ t \\in DOMAIN rootClosedAtCall /\\ rootClosedAtCall[t]))"),
+   ("liveFromClosed", "(liveFromClosed \\/ (~inert /\\ t \\in DOMAIN parentClosedAtCall /\\ parentClosedAtCall[t]))")], []),
  ("ObsGot", "k, id, so, obj", "first-use request for metric (kind k, identity id) on scope object so returned metric object obj",
   [("objMismatch", "(objMismatch \\/ (<<k, id, so>> \\in DOMAIN gotObj /\\ gotObj[<<k, id, so>>] # obj))"),
    ("gotObj", "Put(gotObj, <<k, id, so>>, obj)")], []),
@@ -176,6 +180,8 @@ ReporterClosedAfterFlush == ~closeBeforeFlush
 LoopEnded == ~loopNotEnded
 CloseErrorPropagated == ~errMismatch
 InertAfterClose == ~notInert
+(* C07: "scopes derived from a closed scope are inert" *)
+ClosedParentInert == ~liveFromClosed
 
 (* C09 *)
 SameObject == ~objMismatch
